@@ -78,7 +78,9 @@ func (w *World) skipSites(pkgPrefixes ...string) []skipSite {
 						ks = append(ks, f)
 					}
 					for cl := range a.Calls {
-						ks = append(ks, "call:"+strings.TrimPrefix(cl, "inlined:"))
+						if cl = strings.TrimPrefix(cl, "inlined:"); !isPlumbingCall(cl) {
+							ks = append(ks, "call:"+cl)
+						}
 					}
 					for l := range a.Lits {
 						ks = append(ks, "lit:"+l)
